@@ -10,7 +10,7 @@ From MPB Require Import Base BaseProofs BarState Container ContainerProofs Conta
 
 Theorem C18_finished_bar_gets_next_pop_priority : forall s b nrows rmf s',
   step s (CT_FLUSHBAR b 1 nrows rmf false false) = Some s' -> cycle_err s = false ->
-  lookup b (queue s) = None -> pop_mode s = true ->
+  successors b (queue s) = [] -> pop_mode s = true ->
   prio_of s' b = pop_prio s /\ pop_prio s' = pop_prio s + 1 /\
   (exists wd ht rows n pc pushes rows' n',
       ph s = Rendering wd ht rows n pc pushes /\ ph s' = Rendering wd ht rows' n' pc (pushes ++ [(b, false)])) /\
@@ -51,7 +51,7 @@ Print Assumptions C18_pop_priority_monotone.
 
 (* no-pop bars keep their place *)
 Theorem C18_nopop_bar_keeps_its_place : forall s b sh nrows s',
-  step s (CT_FLUSHBAR b sh nrows false true false) = Some s' -> cycle_err s = false -> lookup b (queue s) = None ->
+  step s (CT_FLUSHBAR b sh nrows false true false) = Some s' -> cycle_err s = false -> successors b (queue s) = [] ->
   prio_of s' b = prio_of s b /\ retired s' = retired s /\ pop_prio s' = pop_prio s /\
   (exists wd ht rows n pc pushes rows' n',
       ph s = Rendering wd ht rows n pc pushes /\ ph s' = Rendering wd ht rows' n' pc (pushes ++ [(b, false)])).
